@@ -131,10 +131,11 @@ impl<L: Language> SerializableRuleConfig<L> {
     rule: &RuleCore<L>,
     env: DeserializeEnv<L>,
   ) -> Result<(), RuleConfigError> {
-    let Some(ser) = &self.rewriters else {
-      return Ok(());
-    };
     let reg = &env.registration;
+    let Some(ser) = &self.rewriters else {
+      // a `rewrite` transformation must not refer to rewriters that do not exist
+      return check_rewriters_in_transform(rule, reg.get_rewriters());
+    };
     let vars = rule.defined_vars();
     for val in ser {
       if val.core.fix.is_none() {
